@@ -896,6 +896,7 @@ func sitesC11(_ *token.FileSet, _ map[string]*ast.File) (string, error) {
 		limit = c.Val().ExactString()
 	}
 	guard := ""
+	slotTest, slotCond, slotPush := "", "", ""
 	var asserts, fields, recovers []string
 	for _, p := range pkgs {
 		for _, f := range p.files {
@@ -912,6 +913,24 @@ func sitesC11(_ *token.FileSet, _ map[string]*ast.File) (string, error) {
 							guard = nodeStr(p.fset, is.Cond)
 						}
 					}
+				}
+				// evalSlot's bookkeeping of the inherited slots being expanded: the test over the whole chain, the
+				// condition under which a supplied content is expanded, and the push of the slot's name
+				if fd.Name.Name == "evalSlot" {
+					ast.Inspect(fd.Body, func(n ast.Node) bool {
+						switch x := n.(type) {
+						case *ast.RangeStmt:
+							if strings.HasSuffix(nodeStr(p.fset, x.X), "inheritedSlots") && len(x.Body.List) == 1 {
+								slotTest = nodeStr(p.fset, x.Body.List[0])
+							}
+						case *ast.IfStmt:
+							if strings.Contains(nodeStr(p.fset, x.Cond), "expanding") && len(x.Body.List) == 2 {
+								slotCond = nodeStr(p.fset, x.Cond)
+								slotPush = nodeStr(p.fset, x.Body.List[0])
+							}
+						}
+						return true
+					})
 				}
 				// type switches and comma-ok assertions are checked forms
 				checked := map[*ast.TypeAssertExpr]bool{}
@@ -1014,6 +1033,9 @@ func sitesC11(_ *token.FileSet, _ map[string]*ast.File) (string, error) {
 	b.WriteString("Inductive aclass := APool | ASoleImpl | AOther.\n")
 	fmt.Fprintf(&b, "Definition max_include_depth : nat := %s.\n", limit)
 	b.WriteString("Definition include_guard : bytes := " + coqBytes(guard) + ".\n")
+	b.WriteString("Definition slot_chain_test : bytes := " + coqBytes(slotTest) + ".\n")
+	b.WriteString("Definition slot_chain_cond : bytes := " + coqBytes(slotCond) + ".\n")
+	b.WriteString("Definition slot_chain_push : bytes := " + coqBytes(slotPush) + ".\n")
 	b.WriteString("Definition unchecked_assertions : list (bytes * bytes * bytes * aclass) := [\n  " + strings.Join(asserts, ";\n  ") + "\n].\n")
 	b.WriteString("Definition reflect_field_reads : list (bytes * bytes * bytes * bool) := [\n  " + strings.Join(fields, ";\n  ") + "\n].\n")
 	b.WriteString("Definition recover_sites : list (bytes * bytes) := [\n  " + strings.Join(recovers, ";\n  ") + "\n].\n")
